@@ -301,9 +301,11 @@ impl Property for C12 {
                 // (a mandatory data block above 255 bytes cannot be described to a real receiver's manager)
                 let use_ext = use_ext && !chain.entries.iter().any(|e| e.id < 0x100 && e.data.len() > 255);
                 let ptype = if use_ext && chain_final { chain.entries.last().unwrap().id } else { gen_user_ptype(&mut rng) };
-                let plen = match rng.below(10) {
+                let plen = match rng.below(12) {
                     0 => rng.range(4096, 12000),
                     1 => rng.range(0, 3),
+                    // the longest PDUs the total length can announce, for the label as written (re-used: none)
+                    2 if !use_ext => 65533 - if substituted { 0 } else { label_bytes(&label).len() } - rng.below(3),
                     _ => rng.range(1, 600),
                 };
                 let pdu = rng.bytes(plen);
